@@ -1,12 +1,12 @@
 package main
 
 import (
-	"strings"
 	"flag"
 	"fmt"
 	"os"
 	"sort"
 	"strconv"
+	"strings"
 	"sync"
 	"time"
 )
